@@ -16,7 +16,7 @@ import itertools
 from typing import Dict, List, Optional, Set, Tuple
 
 from .report import Ctx
-from .srcmodel import AnalysisError, call_leaf, calls_in, contains, src, walk_local
+from .srcmodel import AnalysisError, call_leaf, calls_in, contains, src, walk_local, const_str as const_str
 from .util import enclosing_trys, guard_chain, root_name
 
 
@@ -396,6 +396,29 @@ def run(ctx: Ctx) -> int:
         apps = [c for c in calls_in(lp) if call_leaf(c) == "append"]
         ok = len(apps) == 1 and not guard_chain(apps[0], stop=lp) and any(isinstance(s, ast.Expr) and s.value is apps[0] for s in lp.body)
         ctx.oblige("C02.f", ok, apps[0] if apps else lp, "every argument of the hint is carried over into the rebuilt hint" if ok else "the append that collects the arguments of the rebuilt hint is conditional: resolved forward references are dropped - Tuple['Color', int] becomes tuple[int], so [5] is accepted and ['RED', 5] rejected", fn=rs_)
+
+    # ---------------- C02.g: support is decided for the whole hint, and for both TypedDict providers ----------------------
+    # is_supported_typehint(full=True) is what add_argument asks; the per-subtype question must be asked `full` too,
+    # otherwise an unsupported leaf two levels down (Dict[str, List[NewType]]) is declared supported and adapt_typehints
+    # passes anything at that position through unchanged
+    ist = ctx.func("_typehints:ActionTypeHint.is_supported_typehint")
+    fullp = next((a_.arg for a_ in ist.args.args if a_.arg == "full"), None)
+    ctx.need(fullp, "is_supported_typehint(typehint, full=False)")
+    recs_ = [c for c in calls_in(ist) if call_leaf(c) == "is_supported_typehint"]
+    ctx.floor("C02.g-recursion", len(recs_), 1)
+    for c in recs_:
+        kw_ = {k.arg: k.value for k in c.keywords if k.arg}
+        fv = kw_.get("full", c.args[1] if len(c.args) > 1 else None)
+        ok = fv is not None and ((isinstance(fv, ast.Constant) and fv.value is True) or (isinstance(fv, ast.Name) and fv.id == fullp))
+        ctx.oblige("C02.g", ok, c, "sub-types are asked for full support as well" if ok else "the recursion of is_supported_typehint asks only for shallow support of the sub-type: a hint with an unsupported leaf at depth two or more is accepted by add_argument, and every value at that position is accepted unchanged", fn=ist)
+    gto = ctx.func("_util:get_typehint_origin")
+    metas = set()
+    for n_ in ast.walk(gto):
+        cs = const_str(n_) if isinstance(n_, ast.Constant) else None
+        if cs and cs.endswith("_TypedDictMeta"):
+            metas.add(cs)
+    ok = {"typing._TypedDictMeta", "typing_extensions._TypedDictMeta"} <= metas
+    ctx.oblige("C02.g", ok, gto, "TypedDict classes of both providers (typing, typing_extensions) are recognised as mappings" if ok else f"get_typehint_origin recognises only {sorted(metas)}: a TypedDict from the other provider is treated as an ordinary class and every conforming dict is rejected", fn=gto, construct="TypedDict metaclasses")
 
     return ctx.finish(
         explanation=(
